@@ -626,6 +626,38 @@ Section Compose.
       rewrite <- seq_shift, map_map. apply map_ext. intros i.
       replace (snd cs s + 1 + Z.of_nat i) with (snd cs s + Z.of_nat (S i)) by lia. reflexivity.
   Qed.
+
+  Definition crun (cs : cstate) (evs : list e2e_ev) : cstate := fold_left cstep evs cs.
+
+  Lemma crun_CI k0 : forall evs cs, CI k0 cs -> crun_ok cs evs -> CI k0 (crun cs evs).
+  Proof.
+    induction evs as [|e t IH]; intros cs HC HR; [exact HC|]. destruct HR as [Hev HR].
+    cbn [crun fold_left]. apply IH; [apply cstep_CI; assumption|exact HR].
+  Qed.
+
+  Lemma crun_count k0 : forall evs cs s, CI k0 cs -> crun_ok cs evs ->
+    snd (crun cs evs) s = snd cs s + Z.of_nat (length (outs_of s (couts cs evs))).
+  Proof.
+    induction evs as [|e t IH]; intros cs s HC HR; [cbn; lia|]. destruct HR as [Hev HR].
+    cbn [crun fold_left couts]. unfold crun in IH. rewrite (IH _ s (cstep_CI k0 cs e HC Hev) HR).
+    unfold outs_of. rewrite filter_app, app_length.
+    destruct (cout_spec k0 cs e s HC) as [[E1 E2]|[E1 E2]]; unfold outs_of in E1; rewrite E1, E2; cbn [length]; lia.
+  Qed.
+
+  (* every message counted as read had its first fragment accepted, hence exists in the universe *)
+  Lemma CI_read_exists k0 st g m s k : CI k0 (st, g, m) -> 0 <= k < m s ->
+    exists i c, U i = Some c /\ own i = Some (s, k, 0).
+  Proof.
+    intros (_ & _ & HU & HS) Hk. pose proof (HS s) as HSs.
+    destruct (e2e_get s (e2e_streams st)) as [q|]; [|lia].
+    destruct HSs as (_ & _ & _ & _ & _ & _ & _ & Hdone).
+    assert (Hin : In (k, 0) (pairs s (gacc g))) by (apply Hdone; [lia|specialize (Hnfr s k); lia]).
+    unfold pairs in Hin. apply in_flat_map in Hin. destruct Hin as (i & Hi & Hp).
+    destruct (U i) as [c|] eqn:Eu; [|exfalso; apply (HU i Hi); exact Eu].
+    exists i, c. split; [exact Eu|].
+    destruct (own i) as [[[s0 k1] j1]|]; [|destruct Hp]. destruct (s0 =? s) eqn:Es; [|destruct Hp].
+    destruct Hp as [Hp|[]]. inversion Hp; subst. assert (s0 = s) by lia. subst. reflexivity.
+  Qed.
 End Compose.
 
 (* ---------- from the initial state ---------- *)
@@ -806,5 +838,48 @@ Section Generator.
     - intros n Hn. rewrite map_length, seq_length in Hn.
       rewrite (map_nth (fun x => nth (Z.to_nat (Z.of_nat x)) frs []) (seq 0 (length frs)) 0%nat n).
       rewrite seq_nth by exact Hn. rewrite Nat2Z.id. reflexivity.
+  Qed.
+
+  Lemma g_own_msg i s k j : g_own i = Some (s, k, j) -> exists w, g_msg s k = Some w.
+  Proof.
+    unfold g_own. destruct (find (fun p => fst p =? i) (gen_own i0 [] ws)) as [[i' t]|] eqn:Ef; [|discriminate].
+    intros Eo. apply find_some in Ef. destruct Ef as [Hin _]. cbn [snd] in Eo. inversion Eo; subst t.
+    apply gen_own_spec in Hin. destruct Hin as (kl & w & Hn & Hk & _). cbn [e2e_cnt] in Hk.
+    exists w. unfold g_msg. replace (k <? 0) with false by lia. replace (Z.to_nat k) with kl by lia. exact Hn.
+  Qed.
+
+  (* C01, DATA mode, in terms of the messages written *)
+  Theorem e2e_ordered_prefix_written peer_tsn buf maxent evs s :
+    in32 buf -> crun_ok g_U g_own (e2e_cinit peer_tsn buf maxent) evs ->
+    let outs := outs_of s (couts g_U (e2e_cinit peer_tsn buf maxent) evs) in
+    map e2e_bytes outs =
+    map (fun w => (s, em_data w, em_ppi w)) (firstn (length outs) (e2e_written s ws)).
+  Proof.
+    intros Hb Hok outs.
+    pose proof (e2e_ordered_prefix_data g_U g_own g_T g_nfr g_frag g_ppi g_nfr_range g_wf peer_tsn buf maxent evs s Hb Hok) as H.
+    fold outs in H. rewrite H.
+    pose proof (CI_init g_U g_own g_T g_nfr g_frag g_ppi peer_tsn buf maxent Hb) as HC0.
+    pose proof (crun_CI g_U g_own g_T g_nfr g_frag g_ppi g_nfr_range g_wf _ evs _ HC0 Hok) as HCf.
+    pose proof (crun_count g_U g_own g_T g_nfr g_frag g_ppi g_nfr_range g_wf _ evs _ s HC0 Hok) as Hcnt.
+    fold outs in Hcnt. unfold e2e_cinit in Hcnt at 2. cbn [snd] in Hcnt.
+    assert (Hex : forall k, (k < length outs)%nat -> exists w, nth_error (e2e_written s ws) k = Some w).
+    { intros k Hk. destruct (crun g_U (e2e_cinit peer_tsn buf maxent) evs) as [[st g] m] eqn:Ec. cbn [snd] in Hcnt.
+      destruct (CI_read_exists g_U g_own g_T g_nfr g_frag g_ppi g_nfr_range g_wf _ st g m s (Z.of_nat k) HCf) as (i & c & _ & Ho); [lia|].
+      destruct (g_own_msg _ _ _ _ Ho) as (w & Hw). exists w. unfold g_msg in Hw.
+      replace (Z.of_nat k <? 0) with false in Hw by lia. rewrite Nat2Z.id in Hw. exact Hw. }
+    clear H Hcnt HCf HC0. revert Hex. generalize (length outs) as n. intros n Hex.
+    assert (G : forall n a, (forall k, (k < a + n)%nat -> exists w, nth_error (e2e_written s ws) k = Some w) ->
+                map (fun i => (s, concat (map (g_frag s (Z.of_nat i)) (js (g_nfr s (Z.of_nat i)))), g_ppi s (Z.of_nat i))) (seq a n) =
+                map (fun w => (s, em_data w, em_ppi w)) (firstn n (skipn a (e2e_written s ws)))).
+    { induction n0 as [|n0 IH]; intros a Ha; [reflexivity|]. cbn [seq map].
+      destruct (Ha a ltac:(lia)) as (w & Hw).
+      assert (Em : g_msg s (Z.of_nat a) = Some w).
+      { unfold g_msg. replace (Z.of_nat a <? 0) with false by lia. rewrite Nat2Z.id. exact Hw. }
+      destruct (g_message s (Z.of_nat a) w Em) as [E1 E2].
+      assert (Esk : skipn a (e2e_written s ws) = w :: skipn (S a) (e2e_written s ws)).
+      { clear - Hw. revert a Hw. induction (e2e_written s ws) as [|x t IHl]; intros a Hw; [destruct a; discriminate|].
+        destruct a; [cbn in *; inversion Hw; reflexivity|]. cbn [skipn nth_error] in *. apply IHl. exact Hw. }
+      rewrite Esk. cbn [firstn map]. rewrite E1, E2. f_equal. apply IH. intros k Hk. apply Ha. lia. }
+    specialize (G n 0%nat). cbn [skipn] in G. apply G. intros k Hk. apply Hex. lia.
   Qed.
 End Generator.
